@@ -794,3 +794,119 @@ Proof.
   rewrite (nth_indep (map G obs) 0 (G [])) by (rewrite map_length; exact Hk).
   rewrite (map_nth G). unfold G. ring.
 Qed.
+
+(* ================================================================== covariance of samples with undefined entries *)
+Local Open Scope Q_scope.
+
+Lemma length_col (X : list (list Q)) i : length (col X i) = length X.
+Proof. unfold col. apply map_length. Qed.
+
+(* the sum of products of deviations, written on the two columns alone *)
+Fixpoint sp2 (mi mj : Q) (ci cj : list Q) : Q :=
+  match ci, cj with
+  | a :: ci', b :: cj' => (a - mi) * (b - mj) + sp2 mi mj ci' cj'
+  | _, _ => 0
+  end.
+
+Lemma sumprod_cols_gen (X : list (list Q)) i j mi mj :
+  qsum (map (fun r => (nth i r 0 - mi) * (nth j r 0 - mj)) X) == sp2 mi mj (col X i) (col X j).
+Proof. induction X as [|r X IH]; simpl; [reflexivity|]. rewrite IH. reflexivity. Qed.
+
+(* entry (i,j) of the covariance is a function of columns i and j of the samples only: whatever
+   the other bins hold (in particular something undefined) cannot change it *)
+Theorem cov_code_columns (X Y : list (list Q)) i j :
+  col X i = col Y i -> col X j = col Y j -> cov_code X i j == cov_code Y i j.
+Proof.
+  intros Hi Hj.
+  assert (L : length X = length Y) by (rewrite <- (length_col X i), Hi; apply length_col).
+  unfold cov_code, sumprod, dev, mean_col.
+  rewrite (sumprod_cols_gen X), (sumprod_cols_gen Y). rewrite Hi, Hj, L. reflexivity.
+Qed.
+
+Lemma col_fill (X : list (list oq)) i : col (fill X) i = map unsome1 (ocol X i).
+Proof.
+  unfold col, fill, ocol. rewrite !map_map. apply map_ext. intros r.
+  exact (map_nth unsome1 r None i).
+Qed.
+
+(* where both bins are defined in all samples: the delete-one covariance over ALL samples *)
+Theorem cov_opt_defined (X : list (list oq)) i j :
+  col_defined X i = true -> col_defined X j = true ->
+  exists c, cov_opt X i j = Some c /\ c == cov_spec (fill X) i j.
+Proof.
+  intros Hi Hj. unfold cov_opt. rewrite Hi, Hj. simpl. eexists. split; [reflexivity|].
+  rewrite cov_eval_is_code. apply cov_code_is_spec.
+Qed.
+
+(* where one of the two bins has an undefined sample: no value *)
+Theorem cov_opt_undefined (X : list (list oq)) i j :
+  col_defined X i = false \/ col_defined X j = false -> cov_opt X i j = None.
+Proof.
+  intros [H|H]; unfold cov_opt; rewrite H; [reflexivity|]. rewrite Bool.andb_false_r. reflexivity.
+Qed.
+
+(* two sets of samples that agree in bins i and j have the same entry (i,j), defined or not *)
+Theorem cov_opt_columns (X Y : list (list oq)) i j :
+  ocol X i = ocol Y i -> ocol X j = ocol Y j ->
+  match cov_opt X i j, cov_opt Y i j with
+  | Some c, Some c' => c == c'
+  | None, None => True
+  | _, _ => False
+  end.
+Proof.
+  intros Hi Hj. unfold cov_opt, col_defined. rewrite Hi, Hj.
+  destruct (forallb is_some (ocol Y i) && forallb is_some (ocol Y j)); [|exact I].
+  rewrite !cov_eval_is_code. apply cov_code_columns; rewrite !col_fill; congruence.
+Qed.
+
+(* estimating from the complete samples only is a different matrix, also on the bins that are
+   defined in every sample *)
+Theorem cov_drop_refuted :
+  exists (X : list (list oq)) i j, col_defined X i = true /\ col_defined X j = true /\
+    ~ cov_drop X i j == cov_code (fill X) i j.
+Proof.
+  exists [[Some 1; Some 2; Some 3]; [Some 2; None; Some 5]; [Some 4; Some 1; Some 1]; [Some 0; Some 0; Some 7]],
+         0%nat, 2%nat.
+  split; [reflexivity|]. split; [reflexivity|]. vm_compute. discriminate.
+Qed.
+
+(* positive semi-definite on the defined bins *)
+Lemma quad_masked B v (G G' : nat -> nat -> Q) :
+  (forall i j, ~ nth i v 0 == 0 -> ~ nth j v 0 == 0 -> G i j == G' i j) -> quad B v G == quad B v G'.
+Proof.
+  intros H. unfold quad. apply qsum_ext_all. intros i. apply qsum_ext_all. intros j.
+  destruct (Qeq_dec (nth i v 0) 0) as [E|E]; [rewrite E; ring|].
+  destruct (Qeq_dec (nth j v 0) 0) as [E'|E']; [rewrite E'; ring|].
+  rewrite (H i j E E'). reflexivity.
+Qed.
+
+Theorem cov_opt_psd (X : list (list oq)) v :
+  (forall i, col_defined X i = false -> nth i v 0 == 0) ->
+  quad (ncols (fill X)) v (cov_opt0 X) == quad (ncols (fill X)) v (cov_spec (fill X))
+  /\ 0 <= quad (ncols (fill X)) v (cov_opt0 X).
+Proof.
+  intros Hs.
+  assert (E : quad (ncols (fill X)) v (cov_opt0 X) == quad (ncols (fill X)) v (cov_spec (fill X))).
+  { apply quad_masked. intros i j Hi Hj. unfold cov_opt0.
+    destruct (col_defined X i) eqn:Di; [|exfalso; apply Hi, Hs, Di].
+    destruct (col_defined X j) eqn:Dj; [|exfalso; apply Hj, Hs, Dj].
+    destruct (cov_opt_defined X i j Di Dj) as [c [Ec Hc]]. rewrite Ec. exact Hc. }
+  split; [exact E|]. rewrite E.
+  pose proof (cov_psd (fill X) v) as P. cbv zeta in P. exact (proj2 P).
+Qed.
+
+Lemma mask_from_support (X : list (list oq)) v : forall s i,
+  col_defined X (s + i)%nat = false ->
+  nth i (mapi_from s (fun k x => if col_defined X k then x else 0) v) 0 == 0.
+Proof.
+  induction v as [|x v IH]; intros s i H; simpl.
+  - destruct i; reflexivity.
+  - destruct i; simpl.
+    + rewrite Nat.add_0_r in H. rewrite H. reflexivity.
+    + apply IH. rewrite <- H. f_equal. lia.
+Qed.
+
+(* the probe vectors of the checker are supported on the defined bins *)
+Theorem mask_probe_support (X : list (list oq)) v i :
+  col_defined X i = false -> nth i (mask_probe X v) 0 == 0.
+Proof. intros H. unfold mask_probe. apply mask_from_support. exact H. Qed.
